@@ -27,6 +27,10 @@ CHECKS = {
    text="Lean theorems for every signal over Q and every strictly alternating extrema sequence: the crossing scan finds exactly the samples with x[i] <= h < x[i+1] (rise) / x[i] > h >= x[i+1] (decay); a proper flank always has a crossing (discrete intermediate value), so the len/2 dummy is reached only on flat-ended flanks; value = the crossing, the floor of the temporal median of several, or the temporal centre for inverted / all-zero flanks; one midpoint per adjacent pair, rises for trough->peak, each inside its flank; find_zerox's count/bias logic returns exactly these (C03_counts_order). The run is exhaustive over all flank segments over {-1,0,1,2} up to a length bound and all alternating sequences on all small ternary signals, plus cyclepoints of generated signals.",
    note=NOTE_COMMON + "Half heights (a+b)/2 are exact on the exhaustive integer grids; on float signals a disagreement is recorded as a float tie only if a sample lies within 2^-40 relative of the exact half height.",
    technique="Lean 4 proof + exhaustive small-scope and generated correspondence of model, spec and implementation", ref="6 C03"),
+ 'C01': dict(
+   text="Lean theorems about the composed transcription find_extrema -> find_zerox -> compute_cyclepoints (row slices regenerated from /repo), for EVERY signal, EVERY sign pattern of the filtered signal (the filter is a parameter), every pad length and boundary: whenever a table is returned each row satisfies last trough < peak < next trough with both midpoints inclusively between the extrema they separate, all indices inside the signal and beyond the boundary, and consecutive rows share their side extremum (C01_structure, no hypothesis on the input); when the specification keeps >= 2 peaks a table with exactly (kept peaks - 1) rows is returned instead of an exception (C01_total), row i running from kept trough i over kept peak i+1 to kept trough i+1 (C01_rows); burst labelling is total for valid settings. The run drives compute_features and Bycycle.fit over all signal families and the option grid (n_cycles / n_seconds, boundary, pad, both centrings, both burst methods, return_samples) and judges the implementation's table with the same Lean predicate wellFormed, the specification's row count and 'did not raise'.",
+   note=NOTE_COMMON + "The band-pass filter is a parameter (recomputed by the harness with neurodsp as the property defines). 'Three full oscillations' enters as 'the specification keeps >= 2 peaks'. Trough-centred tables are read through the documented renaming (the renaming itself is C04/C09).",
+   technique="Lean 4 proof over the composed model (filter as parameter) + Lean predicate as judge on the real tables + differential correspondence", ref="6 C01"),
 }
 NA_REASON = "check under construction (see DESIGN.md section 6); not yet claimed"
 m = {"version": 1, "setup_cmd": "./setup.sh",
